@@ -74,6 +74,18 @@ func c11Run(e *Env) {
 
 	var ins []*c11In
 	ownMIDCollision := false
+	var ownMIDs []uint16 // message IDs of the endpoint's own requests / pings, as seen by the peer
+	usedByPeer := map[uint16]bool{}
+	// lastOwn: the latest own message ID that the peer has not used for a request of its own (a second
+	// request with an ID the peer used before would be a genuine duplicate and is rightly swallowed)
+	lastOwn := func() int {
+		for i := len(ownMIDs) - 1; i >= 0; i-- {
+			if m := ownMIDs[i]; !usedByPeer[m] && (m < 100 || m > 140) {
+				return int(m)
+			}
+		}
+		return -1
+	}
 	dispatchSeq := 0
 	var w *CWorld
 	var liveObs mux.Observation
@@ -193,6 +205,7 @@ func c11Run(e *Env) {
 			return
 		}
 		if IsDatagram(tr) {
+			ownMIDs = append(ownMIDs, m.MID)
 			for _, in := range ins {
 				e.mu.Lock()
 				busy := in.inHandler
@@ -367,6 +380,19 @@ func c11Run(e *Env) {
 					typ = TNON
 				}
 				in.raw = &WMsg{Type: typ, Code: 2, MID: uint16(100 + n), Token: []byte{0x22, byte(n)}, Opts: []WOpt{{Num: OptURIPath, Val: []byte("in")}, {Num: OptURIQuery, Val: []byte(fmt.Sprintf("n=%d", n))}}, Payload: []byte("x")}
+				if om := lastOwn(); IsDatagram(tr) && in.kind == hFast && t.Chance(1, 6) && om >= 0 {
+					// the two message-ID spaces are independent: the peer's request happens to carry the ID of a
+					// message of the endpoint that is still waiting for its acknowledgement / pong
+					in.raw.MID = uint16(om)
+					e.Fault("mid.peerRequestEqualsOwnOutstanding")
+				}
+				usedByPeer[in.raw.MID] = true
+				for _, om := range ownMIDs {
+					if om == in.raw.MID && in.kind != hFast {
+						// known finding: the per-message-ID lock is shared by both ID spaces and held across the handler
+						ownMIDCollision = true
+					}
+				}
 				ins = append(ins, in)
 				in.item = w.Queue(in.raw, fmt.Sprintf("request n=%d (%s)", n, c11KindNames[in.kind]))
 				in.item.NoDup, in.item.NoDrop = true, true
